@@ -126,11 +126,41 @@ REQS = [
     ("arr_of_obj", "L.arr_of_obj"),
     ("arr_of_obj_ext", "[o {i: 10} for o in L.arr_of_obj][1].sq"),
     ("arr_of_obj_rm", "[std.objectRemoveKey(o, 'i') for o in L.arr_of_obj][0]"),
+    # eval_call requests: (function, positional arguments, named arguments), each loaded as its own thunk
+    ("call_fn", ("L.fn", ["1"], [])),
+    ("call_fn_named", ("L.fn", [], [("b", "2"), ("a", "L.v")])),
+    ("call_fn_missing", ("L.fn", [], [])),
+    ("call_fn_extra", ("L.fn", ["1", "2", "3"], [])),
+    ("call_fn_unknown_name", ("L.fn", ["1"], [("zz", "2")])),
+    ("call_fn_lazy_arg", ("function(a, b) a", ["L.v", "L.boom"], [])),
+    ("call_fn_failing_arg", ("L.fn", ["L.boom"], [])),
+    ("call_deep", ("L.deep", ["300"], [])),
+    ("call_deep_too", ("L.deep", ["450"], [])),
+    ("call_use", ("L.use", ["L.counter - 1400"], [])),
+    ("call_mk", ("function(n) std.length(L.mk(n))", ["200"], [])),
+    ("call_not_a_function", ("L.v", ["1"], [])),
+    ("call_closure_over_shared", ("local s = L.shared; function(x) s + x", ["1"], [])),
+    ("call_method_self", ("L.counted { f(k):: self[k] }.f", ["'count'"], [])),
+    ("call_builtin", ("std.length", ["L.big"], [])),
+    ("call_returns_object", ("function(o) o {n: 5}", ["L.inh"], [])),
+    ("call_assert_obj_arg", ("function(o) o.n", ["L.inh"], [])),
 ]
 STACKS = [None, 30, 120, 250, 500, 2000]
 
 
+def _src_text(src):
+    if isinstance(src, tuple):
+        return " ".join([src[0]] + list(src[1]) + [a for _, a in src[2]])
+    return src
+
+
 def _clusters():
+    groups = {}
+    REQS_T = [(n, _src_text(x)) for n, x in REQS]
+    return _clusters_of(REQS_T)
+
+
+def _clusters_of(REQS):
     groups = {}
     for i, (_, src) in enumerate(REQS):
         for m in set(re.findall(r"L\.([a-z_0-9]+)", src)):
@@ -146,14 +176,32 @@ CLUSTERS = _clusters()
 
 
 def request_lines(slot, via, src, stack, manifest=True, again=False, gc=None):
-    """Lines of one request against the state (library already installed)."""
+    """Lines of one request against the state (library already installed).  src is a source text, or
+    (function source, [positional argument sources], [(name, argument source)]) for an eval_call request."""
     L = []
     if stack is not None:
         L.append(f"STACK {stack}")
-    if via == "ext":
-        body = "local L = std.extVar('lib'); " + src
-    else:
-        body = "local L = import 'lib.libsonnet'; " + src
+    pre = "local L = std.extVar('lib'); " if via == "ext" else "local L = import 'lib.libsonnet'; "
+    if isinstance(src, tuple):
+        fsrc, pos, named = src
+        L.append(f"LOAD {slot} {hx('<req%d>' % slot)} {hx(pre + fsrc)} 1")
+        slots = []
+        for k, a in enumerate(list(pos) + [a for _, a in named]):
+            aslot = 3000 + slot * 10 + k
+            L.append(f"LOAD {aslot} {hx('<arg%d.%d>' % (slot, k))} {hx(pre + a)} 1")
+            slots.append(aslot)
+        call = "CALL %d %%d 1 %d %s %d %s" % (slot, len(pos), " ".join(str(x) for x in slots[:len(pos)]), len(named),
+                                             " ".join("%s %d" % (hx(n), slots[len(pos) + k]) for k, (n, _) in enumerate(named)))
+        call = re.sub(r" +", " ", call).strip()
+        L.append(call % slot)
+        if manifest:
+            L.append(f"MANI {slot} 0")
+        if again:
+            L.append(call % (1000 + slot))
+        if gc:
+            L.append("GC")
+        return L
+    body = pre + src
     L.append(f"LOAD {slot} {hx('<req%d>' % slot)} {hx(body)} 1")
     L.append(f"EVAL {slot} {slot} 1")
     if manifest:
@@ -265,8 +313,9 @@ def run_history(agg, srv, srv2, hist, via, lib=None, reqs=None):
                 break
         if again:
             # the same thunk evaluated again must give the same outcome as the first time
-            first = g[1]
-            second = g[-1]
+            evs = [k for k, nm in enumerate(names) if nm in ("EVAL", "CALL")]
+            first = g[evs[0]]
+            second = g[evs[-1]]
             a, b = reduce_rec(first), reduce_rec(second)
             if a != b:
                 agg.violation({"kind": "reevaluation_differs", "request": REQS[ri][0],
@@ -275,7 +324,8 @@ def run_history(agg, srv, srv2, hist, via, lib=None, reqs=None):
                                "library": (lib or "")[:1200]},
                               {"script": shared})
         if reqs is None:
-            agg.add("request_outcomes", (REQS[ri][0], g[1].get("kind", g[1].status) if len(g) > 1 else g[0].status))
+            ev0 = next((k for k, nm in enumerate(names) if nm in ("EVAL", "CALL")), 0)
+            agg.add("request_outcomes", (REQS[ri][0], g[ev0].get("kind", g[ev0].status) if len(g) > ev0 else g[0].status))
         else:
             agg.count("generated_lib_outcome:" + (g[1].get("kind", g[1].status) if len(g) > 1 else g[0].status))
     agg.nontrivial.add(common.h64(via, repr(hist), lib or ""))
